@@ -389,7 +389,7 @@ def main(run, shard=(0, 1)) -> None:
     })
     probe.start()
     thorough = run.tier == 'thorough'
-    n = 120000 if thorough else 6000
+    n = 1500000 if thorough else 6000
     for i in range(n):
         if mine(i, shard):
             one_case(run, sub_rng(run.seed, 'alg', i), i, 'algebra')
